@@ -110,9 +110,9 @@ CHECKS = {
 
  'C06': dict(
    text='Proof: the integer-bit search of set_best_sizes (a loop, modelled with fuel) tests exactly whether both extremes lie in [-2^i, 2^i) (C06_msb_test) and therefore returns the LEAST integer length holding them, by its loop invariant (C06_min_int_bits); '
-        'the reconciliation arithmetic of _init_size when n_int is given (C06_n_int_with_n_frac / _with_n_word). PARTIAL: minimality of the inferred fraction length (the binary-expansion loop, also modelled with fuel) and exactness of the stored values are not theorems yet. '
+        'the reconciliation arithmetic of _init_size when n_int is given (C06_n_int_with_n_frac / _with_n_word). the fraction-bit search (binary expansion, also modelled with fuel) returns the LEAST n for which the value is a multiple of 2^-n, hence exact with n bits and not with fewer (C06_min_frac_bits, loop invariant, termination within the fuel). PARTIAL: the combination step (maximum over the elements, reconciliation with the 64-bit cap) is modelled, not a theorem. '
         'The correspondence run checks exactness, minimal n_frac, minimal n_word, the only-n_word / only-n_frac / n_int rules against exact rationals for dyadic inputs k/2^f (f<=20, |k|<2^40) in every subset of given sizes and signedness, the capped non-dyadic case, and compares the model Sizes.init_size on every case.',
-   design='7/C06', technique='Coq proof (loop invariant of the integer-bit search) + differential correspondence'),
+   design='7/C06', technique='Coq proof (loop invariants of the integer-bit and fraction-bit searches) + differential correspondence'),
 
  'C15': dict(
    text='Proof: sum over any number of elements (all elements or one slice along an axis; x.size drives the growth) returns the exact sum with no flag (C15_sum_exact: growth rule, int64 accumulation, Fxp(val, raw=True)); the accumulating reductions never overflow their optimal format even with every element at an extreme - '
